@@ -97,6 +97,14 @@ def run_property(pid: str, tier: str, repo_root: str, seed: int, only_key=None) 
             chk.extra['mypy_cross_check'] = mc
             if mc.get('disagreements'):
                 raise AnalysisError('E1', 'callee resolution', 'sa.index and mypy disagree on the defining class of: ' + '; '.join(mc['disagreements'][:3]))
+            # fidelity of the analyser's model of Python: the corpus of sa/foldcorpus evaluated by sa.fold and by CPython
+            from . import foldtest
+            fres = foldtest.run()
+            fsum = {k: sum(1 for r in fres if r[1] == k) for k in ('agree', 'unsupported', 'crash', 'MISMATCH')}
+            chk.extra['fold_fidelity'] = {'corpus_functions': len(fres), **fsum}
+            if fsum['MISMATCH']:
+                bad = [r[0] for r in fres if r[1] == 'MISMATCH'][:3]
+                raise AnalysisError('E4', 'sa.fold', f'the folder disagrees with CPython on {fsum["MISMATCH"]} corpus function(s): {", ".join(bad)}')
             from . import selftest
             selftest.run_for(chk)
         return chk.finish()
